@@ -137,9 +137,32 @@ class SingleFieldSubscriptionsChecker(ValidationVisitor):
     root field.
     """
 
+    def enter_document(self, node):
+        self._fragments = {
+            definition.name.value: definition
+            for definition in node.definitions
+            if isinstance(definition, _ast.FragmentDefinition)
+        }
+
+    def _response_names(self, selection_set, names, visited):
+        # The rule applies to the collected fields, i.e. through fragments and
+        # with selections sharing a response name counted once.
+        for selection in selection_set.selections:
+            if isinstance(selection, _ast.Field):
+                names.add(selection.response_name)
+            elif isinstance(selection, _ast.InlineFragment):
+                self._response_names(selection.selection_set, names, visited)
+            elif isinstance(selection, _ast.FragmentSpread):
+                name = selection.name.value
+                fragment = getattr(self, "_fragments", {}).get(name)
+                if fragment is not None and name not in visited:
+                    visited.add(name)
+                    self._response_names(fragment.selection_set, names, visited)
+        return names
+
     def enter_operation_definition(self, node):
         if node.operation == "subscription":
-            if len(node.selection_set.selections) != 1:
+            if len(self._response_names(node.selection_set, set(), set())) != 1:
                 if node.name:
                     msg = (
                         'Subscription "%s" must select only one top level field.'
